@@ -855,6 +855,71 @@ def rule_r13(facts, col, rule_id="C16.R13"):
                 col.silent(rule_id, key, body.where(bb), "controlling test is not an end-of-data test")
 
 
+def rule_r14(facts, col, rule_id="C16.R14"):
+    """a counted repetition is started before work() returns: on every non-error path from `Repeat::again() == true` to a
+    return, the source's position is reset (an assignment to a field of self, or a seek on its file).  If work() can return in
+    between - e.g. to wait for output room - the end-of-data condition still holds on the next call and again() is asked a
+    second time for the same boundary: every retry of the blocked call burns one repetition."""
+    rb = repeat_blocks(facts)
+    n = 0
+    for body in facts.impl_bodies(BLOCK_TRAIT, "work"):
+        if body.self_adt not in rb:
+            continue
+        rfield = rb[body.self_adt]
+        resets = set()
+        for bb in sorted(body.reachable(0)):
+            for st in body.blocks[bb]["stmts"]:
+                if st["k"] == "assign" and st["dst"]["l"] == 1 and st["dst"]["p"] and st["dst"]["p"][0] == "*":
+                    pj = st["dst"]["p"]
+                    if len(pj) >= 2 and isinstance(pj[1], dict) and pj[1].get("n") not in (None, rfield):
+                        resets.add(bb)
+            t = body.term(bb)
+            if t["k"] == "call" and t["f"].get("name") in ("seek", "rewind") and "Seek" in (t["f"].get("q") or ""):
+                resets.add(bb)
+            if t["k"] == "call":
+                # a helper of the block that does the reset (`self.rewind()?`)
+                for q in Body.callee_qs(t):
+                    for hb in facts.by_q.get(q, []):
+                        if hb.self_adt == body.self_adt and hb.kind != "closure" and hb is not body:
+                            if any(tt["f"].get("name") in ("seek", "rewind") for _, tt in hb.calls()) or \
+                               any(st["k"] == "assign" and st["dst"]["l"] == 1 and st["dst"]["p"] and st["dst"]["p"][0] == "*"
+                                   for blk in hb.blocks for st in blk["stmts"]):
+                                resets.add(bb)
+        okrets = {rb_ for rb_, si, e in assigns_to_return(body)
+                  if not ((e.k == "agg" and e.variant == "Err") or (e.k == "call" and (e.q or "").endswith("from_residual")))}
+        for abb, t in body.calls_to(AGAIN):
+            key = "%s:again()->restart" % body.q
+            n += 1
+            # the true edge of the switch on again()'s result
+            tr = None
+            for s_ in sorted(body.reachable(0)):
+                tt = body.term(s_)
+                if tt["k"] != "switch" or tt.get("dty") != "bool":
+                    continue
+                e = peel(switch_discr_expr(body, s_), through_try=False)
+                neg = False
+                while e is not None and e.k == "un" and e.op == "Not":
+                    neg = not neg
+                    e = peel(e.a, through_try=False)
+                if e is not None and e.k == "call" and e.bb == abb:
+                    bt = bool_edge_targets(body, s_)
+                    if bt:
+                        tr = bt[1] if neg else bt[0]
+            if tr is None:
+                col.silent(rule_id, key, body.where(abb), "again()'s result is not branched on directly")
+                continue
+            lost = okrets & reach_avoiding(body, tr, resets - {tr}) if tr not in resets else set()
+            if lost:
+                col.bad(rule_id, key, body.where(abb),
+                        "after Repeat::again() has counted a repetition, work() can return (%s) without having reset the source's position "
+                        "(no assignment to a field of self, no seek on that path): the end-of-data condition still holds on the next call, "
+                        "again() is asked again for the same boundary, and every retry burns one repetition - fewer than `repeat` copies are "
+                        "emitted" % body.where(sorted(lost)[0]), {})
+            else:
+                col.ok(rule_id, key, body.where(abb), "every non-error path from again()==true resets the position before returning")
+    return n
+
+
 # a body that raises an alarm as compiled is judged again on its work view (effects.view_fallback)
 rule_r2 = effects.view_fallback(rule_r2)
 rule_r5 = effects.view_fallback(rule_r5)
@@ -883,6 +948,8 @@ def run(ctx):
     ctx.floor("C16.R10", 1, "FileSource fast path (same rule as C14.R4)")
     rule_r9(facts, ctx, scope=lambda b: b.self_adt in rb)
     ctx.floor("C16.R9", 5, "EOF verdicts of the three finite sources (8 today)")
+    rule_r14(facts, ctx)
+    ctx.floor("C16.R14", 2, "again() sites of the finite sources whose result is branched on (3 today)")
     rule_r13(facts, ctx)
     ctx.floor("C16.R13", 5, "EOF verdicts of the three finite sources behind an end-of-data test (8 today)")
     rule_r12(facts, ctx)
